@@ -34,12 +34,12 @@ OutEvent(s) ==
   ELSE IF d.k = "ret" THEN
      IF RecvCannotDecode(s, d)
      THEN [ev |-> "raise", cls |-> "WebSocketPayloadException", doc |-> TRUE, terr |-> FALSE,
-           sock_none |-> ~s.sockOpen, connected |-> s.connected]
+           sock_none |-> ~s.sockOpen, connected |-> s.connected, tclosed |-> ~s.sockOpen]
      ELSE [ev |-> "ret", op |-> d.op, fin |-> d.fin,
            data |-> IF s.call.api = "recv" /\ d.op \notin {OpText, OpBin} THEN <<>> ELSE d.data,
            kind |-> IF d.op = OpBin THEN "bytes" ELSE "text", connected |-> s.connected]
   ELSE [ev |-> "raise", cls |-> ClsOf(d.cls), doc |-> d.cls # "Transport", terr |-> d.cls = "Transport",
-        sock_none |-> ~s.sockOpen, connected |-> s.connected]
+        sock_none |-> ~s.sockOpen, connected |-> s.connected, tclosed |-> ~s.sockOpen]
 
 Events(s) ==
   IF s.due # <<>> THEN {OutEvent(s)}
